@@ -5,10 +5,12 @@ CONFIG = dict(
     level_text="Kernel-checked Lean theorems about an executable model of the whole path RIB (per-shard destination ids from a "
                "lowest-free allocator) -> change queue -> process_nlri_change / do_route_refresh -> ExportMap -> PendingTx -> "
                "drain -> abstract codec -> neighbour mirror: pending_last_writer_wins and the survival of a queued withdrawal "
-               "across destination-id re-use; destid_stable for Table::insert / Table::remove; export_invariant (every "
-               "delivered change, flush, policy change and in-order soft reset keeps the session invariant), convergence (the "
-               "flushed neighbour view is exactly the export of the last delivered paths under the current policy = what a "
-               "brand-new session is sent) and withdraw_on_wire for sessions without add-path; and the master theorem: the C01 "
+               "across destination-id re-use; destid_stable for Table::insert / Table::remove / Table::drop (peer down); "
+               "export_invariant (every delivered change, flush, policy change and in-order soft reset / route refresh keeps the "
+               "session invariant), convergence (the flushed neighbour view is exactly the export of the last delivered paths "
+               "under the current policy = what a brand-new session is sent) and withdraw_on_wire, each for sessions without "
+               "add-path (best path, wire path id 0) and for add-path sessions (top-N window after the per-peer filters, one "
+               "wire path id per local path id, theorems *_addpath); and the master theorem, both modes: the C01 "
                "reference checker (view after quiescence and flush = fresh dump, as sets of prefix / path-id / attributes / next "
                "hop) accepts every run of the composed model whose hypotheses, computed along the run, hold.  The full-strength "
                "statement C01_full is kept as a definition and refuted for the current code by a kernel-evaluated witness "
@@ -20,14 +22,18 @@ CONFIG = dict(
     level_note="Trusted: Lean kernel; axioms propext/Quot.sound; the hand-written model (checked only by the correspondence "
                "stream); harness glue (ToPeerEvent dispatch and the drain+encode loop transcribed from run_select / flush_tx, "
                "the tokio channel replaced by a FIFO, the independent UPDATE reader).  The master theorem's hypothesis okRun is "
-               "computed, not assumed: session without add-path, no LLGR stale period, every delivered change admissible for "
-               "the session's view (ids stable and unshared, best_changed = false only when the best path is unchanged - what "
-               "C06 states about the change stream), soft resets walking a snapshot of the view's destinations, no policy "
-               "change left without its soft reset, final RIB snapshot consistent with the view; the driver reports any "
-               "generated in-order history on which it fails (none in 30 000).  NOT covered by theorems, only by the "
-               "correspondence stream and the oracle: the add-path branch (effective_max > 1), Table::drop / peer-down id "
-               "bookkeeping, histories in which a soft reset overtakes queued changes (open finding S36), LLGR stale periods "
-               "(open finding S16, outside the property's quantifier), next-hop flaps (not generated).",
+               "computed, not assumed: no LLGR stale period, every delivered change admissible for the session's view (ids stable "
+               "and unshared; without add-path: best_changed = false only when the best path is unchanged; with add-path: "
+               "any_changed = false only when the visible paths are unchanged, a path that keeps its local id without being "
+               "reported as replaced is the same path, path ids unique per destination - what C06 states about the change "
+               "stream), soft resets walking a snapshot of the view's destinations, no policy change left without its soft "
+               "reset, final RIB snapshot consistent with the view (all visible paths for add-path, best paths otherwise); the "
+               "driver reports any generated in-order history without LLGR period on which it fails (none in 200 000, send-max "
+               "1-3).  Import-policy filtered paths and next-hop flaps are ordinary changes for these theorems (the RIB model "
+               "hides such paths from the change).  NOT covered by theorems, only by the correspondence stream and the oracle: "
+               "histories in which a soft reset overtakes queued changes (open finding S36) and LLGR stale periods (S16, "
+               "repaired: with 2+ paths of the stale peer on a prefix the re-advertisement takes several changes, in between "
+               "the admissibility notion of the add-path theorems does not hold).",
     lean_modules=["Rbgp.Export.Props01"],
     theorems=[
         "Rbgp.Export.Props01.check_run_ok",
@@ -38,6 +44,7 @@ CONFIG = dict(
         "Rbgp.Export.Props01.destid_stable_init",
         "Rbgp.Export.Props01.destid_stable_insert",
         "Rbgp.Export.Props01.destid_stable_remove",
+        "Rbgp.Export.Props01.destid_stable_drop",
         "Rbgp.Export.Props01.export_invariant_establish",
         "Rbgp.Export.Props01.export_invariant_deliver",
         "Rbgp.Export.Props01.export_invariant_flush",
@@ -46,6 +53,14 @@ CONFIG = dict(
         "Rbgp.Export.Props01.convergence",
         "Rbgp.Export.Props01.convergence_vs_fresh_dump",
         "Rbgp.Export.Props01.withdraw_on_wire",
+        "Rbgp.Export.Props01.export_invariant_establish_addpath",
+        "Rbgp.Export.Props01.export_invariant_deliver_addpath",
+        "Rbgp.Export.Props01.export_invariant_flush_addpath",
+        "Rbgp.Export.Props01.export_invariant_soft_reset_addpath",
+        "Rbgp.Export.Props01.export_invariant_meaning_addpath",
+        "Rbgp.Export.Props01.convergence_addpath",
+        "Rbgp.Export.Props01.convergence_vs_fresh_dump_addpath",
+        "Rbgp.Export.Props01.withdraw_on_wire_addpath",
     ],
     harness=dict(kind="daemon", test="event::verif_event::c01::verif_main"),
     profiles=["debug"],
@@ -56,8 +71,10 @@ CONFIG = dict(
          "the neighbour's own address), 3-5 attribute sets differing in LOCAL_PREF / ORIGIN / MED / communities / opaque "
          "attributes, neighbour role in {eBGP, iBGP, RR client, RS client, confed}, cluster-id, confederation id, send-max "
          "1-3, 1-3 shards, 1-3 export policies (reject ORIGIN v, set MED, add community, next-hop address, reject all); "
-         "operations: announce / withdraw (remote path ids 0-2), peer-down, soft reset with a new policy, deliver k queued "
-         "events, flush; biased sequences: withdraw the last path of a prefix and announce a prefix the RIB does not hold "
+         "two cases in five an import policy rejecting one ORIGIN value; operations: announce / withdraw (remote path ids "
+         "0-2), re-announce a live (source, prefix, path id), best or not, with another attribute set (filtered <-> visible "
+         "under the import policy), next hop becomes unreachable / reachable, peer-down, one history in five LLGR stale "
+         "periods, soft reset with a new policy, deliver k queued events, flush; biased sequences: withdraw the last path of a prefix and announce a prefix the RIB does not hold "
          "before the flush (destination-id re-use, optionally with a delivery or a soft reset in between), 2-3 sources on one "
          "prefix (add-path window crossings, best-path changes, filtered head); 0-4 announcements before establishment (the "
          "dump); 1.7 % syntactically damaged cases.  At the end everything is delivered and flushed and a brand-new "
@@ -80,7 +97,8 @@ CONFIG = dict(
                            "withdraw / reach parts) - the mirror is order-independent except for `amb` keys",
                            "PeerCodec::encode_to framing and splitting (C04); only the decoded effect is compared",
                            "the decision order impl Ord for RibEntry (C02), modelled as a lexicographic key",
-                           "RTC filter, BMP, kernel FIB, prefix limits, import policy, nexthop tracking: held constant"],
+                           "RTC filter, BMP, kernel FIB, prefix limits: held constant; the import policy is one reject-ORIGIN statement "
+                           "(FLAG_FILTERED), next-hop tracking is driven through update_nexthop_validity directly"],
     assumptions=["policy changes take effect in the session at once and their soft reset is queued, as in the daemon",
                  "fewer than 2^24 destinations per shard (the IdAllocator's own debug assertion)"],
 )
@@ -215,14 +233,15 @@ def gen_case(r):
     def held():
         return set(p for (_, p, _) in live)
 
-    # LLGR stale periods: every route of the source is re-advertised with LLGR_STALE (S16)
-    llgr_ok = True
+    # LLGR stale periods (one history in five): every route of the source is re-advertised with
+    # LLGR_STALE (S16); the master theorem's computed hypothesis excludes these histories
+    llgr_ok = r.chance(1, 5)
     pre = [ann() for _ in range(r.pick([0, 0, 1, 2, 4]))]
     ops = []
     n = r.pick([5, 10, 20, 40, 60])
     while len(ops) < n:
         kind = r.weighted([("ann", 30), ("wd", 14), ("deliver", 20), ("flush", 12), ("down", 4), ("reset", 6),
-                           ("reuse", 10), ("window", 6), ("llgr", 2 if llgr_ok else 0),
+                           ("reuse", 10), ("window", 6), ("llgr", 3 if llgr_ok else 0),
                            ("toggle", 10 if imp != "none" else 3), ("nhflap", 4)])
         if kind == "ann":
             ops.append(ann())
